@@ -23,8 +23,11 @@
     - literals carry the primitive's suffix and are in range; [bool], [char] ('c'), strings
       ("..." . into ( )); 256-bit integers are 32 [u8] literals in brackets;
     - tuples [( e1 , e2 , )] with exactly the tuple's arity, every element followed by a comma
-      (so a 1-tuple is [( e , )]); arrays [[ e ; <len>usize ]] or [[ e , .. , e ]] with exactly
-      [len] elements; sequences [vec ! [ e , .. , e ]] of any length;
+      (so a 1-tuple is [( e , )]); arrays [[ e , .. , e ]] with exactly [len] elements, or the
+      REPEAT form [[ e ; <len>usize ]] -- the latter only when [len <= 1] or the element type is
+      [Copy] ([copy_ty], below: Rust demands [Copy] of the operand of a repeat expression of
+      length >= 2; [copy_ty] is defined on the REGISTRY, independently of the implementation's
+      heuristic [type_def_is_copy]); sequences [vec ! [ e , .. , e ]] of any length;
     - a field value is wrapped [Compact ( e )] exactly when the field is explicitly
       Compact-typed (its recorded type name starts with "Compact<"), as the implementation prints
       it.  (REMARK: the generated field has type [T] with [#[codec(compact)]]; the property as
@@ -166,6 +169,44 @@ Section Shapes.
       C i ts ("," :: mid) -> conf_tuple l mid rest -> conf_tuple (i :: l) ts rest.
 End Shapes.
 
+(** ** which generated types are [Copy]
+    A repeat expression [[ e ; n ]] with [n >= 2] is a value of [[T; n]] only if [T : Copy].
+    [copy_ty r fuel id]: the type generated for [id] is [Copy] --
+    - a primitive other than [str] (printed [String]);
+    - an array (of ANY length: [[T; N] : Copy] whenever [T : Copy]) of a copy type;
+    - a tuple of copy types (the empty tuple included);
+    - a Compact entry of a copy type (transparent in expressions);
+    - Composite / Variant / Sequence / BitSequence: NO.  Generated structs and enums do not derive
+      [Copy] by default (user-configured derives are ignored: conservative, the explicit list is
+      always a value); [Vec] and [DecodedBits] are not [Copy].
+    A definition on the registry only; it does NOT mention the implementation's heuristic
+    ([type_def_is_copy], modelled by [Model.ExampleRust.is_copy], which additionally refuses arrays
+    longer than 32 -- a subset, see [Proofs.ConformsProofs.is_copy_copy_ty]).
+    [fuel] bounds the descent; out of fuel = [false].  [copy_tyb] uses the number of entries + 1
+    (a chain of distinct ids is at most that long; a cycle is not a type). *)
+Fixpoint copy_ty (r : registry) (fuel : nat) (id : N) : bool :=
+  match fuel with
+  | O => false
+  | S fuel' =>
+      match lookup r id with
+      | None => false
+      | Some t =>
+          match t_def t with
+          | TDPrimitive p => match p with PStr => false | _ => true end
+          | TDArray _ e => copy_ty r fuel' e
+          | TDTuple l => forallb (copy_ty r fuel') l
+          | TDCompact e => copy_ty r fuel' e
+          | TDComposite _ | TDVariant _ | TDSequence _ | TDBitSeq _ _ => false
+          end
+      end
+  end.
+
+Definition copy_tyb (r : registry) (id : N) : bool := copy_ty r (S (List.length r)) id.
+
+(** the repeat form [[ e ; <len>usize ]] is admissible for an array of [len] elements of type [e] *)
+Definition repeat_ok (r : registry) (len e : N) : Prop := len <= 1 \/ copy_tyb r e = true.
+Definition repeat_okb (r : registry) (len e : N) : bool := (len <=? 1) || copy_tyb r e.
+
 Section Conforms.
   Variable r : registry.
   Variable s : settings.
@@ -184,6 +225,7 @@ Section Conforms.
       conforms id ("vec" :: "!" :: "[" :: ts) rest
   | c_array_repeat id t len e ts rest :
       lookup r id = Some t -> t_def t = TDArray len e ->
+      repeat_ok r len e ->      (* [len <= 1] or the element type is [Copy] *)
       conforms e ts (";" :: lit_u "usize" len :: "]" :: rest) ->
       conforms id ("[" :: ts) rest
   | c_array_list id t len e ts rest :
@@ -466,7 +508,8 @@ Section Conforms.
                         match C e t1 with
                         | Some t2 =>
                             match expect ";" t2 with
-                            | Some t3 => expects [lit_u "usize" len; "]"] t3
+                            | Some t3 =>
+                                if repeat_okb r len e then expects [lit_u "usize" len; "]"] t3 else None
                             | None =>
                                 match expect "," t2 with
                                 | Some t3 =>
